@@ -54,8 +54,31 @@ func (h *Harness) Operator(contract common.Address, method string, args []byte) 
 	return chain.OperatorSign(h.Tx(contract, method, args), cur)
 }
 
+// ExecInspect is Exec with a callback that runs BEFORE the block is committed. Use it whenever
+// your oracle reads TxTrace.Pre / TxTrace.Post: a View layers the block's write set so far over
+// the *committed ledger*, so once the block is committed (i.e. after Exec returned) keys that a
+// prefix did not write already show the whole block's effects. Inside the callback the ledger
+// is still at the previous height and Pre/Post are exact per-transaction states.
+func (h *Harness) ExecInspect(inspect func(traces []*TxTrace), txs ...*types.Transaction) (traces []*TxTrace, ok bool) {
+	h.S.BeforeCommit = func(bt *BlockTrace) {
+		var own []*TxTrace
+		for _, t := range bt.Txs {
+			if t.P != nil {
+				own = append(own, t)
+			}
+		}
+		inspect(own)
+	}
+	defer func() { h.S.BeforeCommit = nil }()
+	return h.Exec(txs...)
+}
+
 // Exec commits the transactions in one block (in the given order) and returns their observed
 // transitions. ok=false means a generic oracle stopped the run (run.Failed()).
+// NOTE: the returned traces' OK/Events/Writes/Cross are exact, but their Pre/Post VIEWS are only
+// exact for keys written earlier in the same block; for other keys they read the ledger AFTER
+// the commit. Use ExecInspect (or snapshot what you need from h.View() before Exec) when you
+// need true pre-states.
 func (h *Harness) Exec(txs ...*types.Transaction) (traces []*TxTrace, ok bool) {
 	for i, tx := range txs {
 		h.S.Pending = append(h.S.Pending, &PendingTx{Tx: tx, Step: kernel.Step{Op: "raw", A: []int64{int64(i)}}, Idx: h.S.R.StepNo})
